@@ -104,6 +104,16 @@ Definition tb_sconfig (ti : tinst) (flv : flavour) (usecache nodupf usedom : boo
   sc_nodup := nodupf; sc_cutoff := cutoff |}.
 Definition tb_maximize (cfg : @sconfig tstate) (fuel : nat) (primal : option (Z * list decision)) :=
   maximize tstate_eqb cfg fuel primal.
+(* several set_primal calls before maximize(): same packaging of the result as Solver.maximize *)
+Definition tb_maximize_multi (cfg : @sconfig tstate) (fuel : nat) (primals : list (Z * list decision)) : sresult :=
+  let s0 := fold_left (fun s p => set_primal s (fst p) (snd p)) primals (init_sstate cfg) in
+  let '(s, e) := main_loop tstate_eqb cfg fuel (initialize_solver tstate_eqb cfg s0) in
+  let sol := option_map (sort_by dec_var_cmp) (s_sol s) in
+  {| r_exact := negb (s_abort s);
+     r_value := match sol with Some _ => Some (s_lb s) | None => None end;
+     r_lb := s_lb s; r_ub := s_ub s; r_sol := sol; r_explored := s_explored s; r_polls := s_polls s;
+     r_crash := s_crash s; r_tie := s_tie s;
+     r_outoffuel := match e with RanOutOfFuel => true | Finished => false end; r_compiles := s_compiles s |}.
 
 (* the property oracles (executable formal specification) *)
 Definition tb_opt_enum (ti : tinst) : option Z := opt_enum (t_problem ti).
